@@ -1,14 +1,22 @@
 package props
 
 import (
+	"context"
 	"encoding/json"
 	"fmt"
 	"strings"
 
+	blocks "github.com/ipfs/go-block-format"
+	"github.com/ipfs/go-cid"
 	"github.com/ipfs/go-graphsync"
+	gsimpl "github.com/ipfs/go-graphsync/impl"
+	gsmsg "github.com/ipfs/go-graphsync/message"
 	"github.com/ipfs/go-graphsync/zzverif/vsched"
+	cidlink "github.com/ipld/go-ipld-prime/linking/cid"
+	"github.com/libp2p/go-libp2p/core/peer"
 
 	"verif/core"
+	"verif/harness"
 )
 
 // C23: reported request state agrees with the work queue when quiescent
@@ -61,7 +69,191 @@ func c23JudgeReq(cs reqCase, o *reqObs) *core.Violation {
 	return nil
 }
 
+// ---- requestor with several requests and one outgoing worker: queued requests
+// that are cancelled, running ones that end, late arrivals
+
+type c23Multi struct {
+	Multi bool     `json:"requestor_multi"`
+	Evs   []string `json:"events"`
+}
+
+func c23MultiRun(cs c23Multi) (diag []string, stats string, left map[string]string, notDone []string, panicked string) {
+	sh := harness.Shape{Name: "chain2", Blocks: []harness.BlockSpec{{Edges: []harness.Edge{{To: 1}}}, {}}}
+	left = map[string]string{}
+	s := vsched.Run(vsched.Config{Fast: true}, func() {
+		f := harness.NewFixture(true)
+		q := f.AddNode(peer.ID("Q"), harness.NewStore(), gsimpl.MaxInProgressOutgoingRequests(1))
+		sp := f.AddScript(peer.ID("S"))
+		gsq := q.GS.(*gsimpl.GraphSync)
+		dags := map[string]*harness.DAG{}
+		res := map[string]*harness.ReqResult{}
+		cancelled := map[string]bool{}
+		answered := map[string]bool{}
+		ids := map[string]graphsync.RequestID{"A": harness.MkID(1), "B": harness.MkID(2), "C": harness.MkID(3)}
+		issue := func(n string) {
+			dags[n] = harness.Build(sh, "c23-"+n)
+			res[n] = q.Request(f, sp.ID, dags[n].Root, harness.RecAll(10), ids[n])
+		}
+		answer := func(n string) {
+			if res[n] == nil || answered[n] {
+				return
+			}
+			asked := false
+			for _, w := range sp.Inbox {
+				for _, rq := range w.Msg.Requests() {
+					if rq.ID() == ids[n] && rq.Type() == graphsync.RequestTypeNew {
+						asked = true
+					}
+				}
+			}
+			if !asked {
+				return // the request has not reached the responder yet (still queued on the requestor)
+			}
+			answered[n] = true
+			d := dags[n]
+			var md []gsmsg.GraphSyncLinkMetadatum
+			bl := map[cid.Cid]blocks.Block{}
+			for i, l := range d.Links {
+				c := l.(cidlink.Link).Cid
+				md = append(md, gsmsg.GraphSyncLinkMetadatum{Link: c, Action: graphsync.LinkActionPresent})
+				b, _ := blocks.NewBlockWithCid(d.Data[i], c)
+				bl[c] = b
+			}
+			f.Net.Node(q.ID).Inject(sp.ID, gsmsg.NewMessage(nil, map[graphsync.RequestID]gsmsg.GraphSyncResponse{ids[n]: gsmsg.NewResponse(ids[n], graphsync.RequestCompletedFull, md)}, bl))
+		}
+		observe := func() {
+			for rid, ds := range gsq.PeerState(sp.ID).OutgoingState.Diagnostics() {
+				diag = append(diag, fmt.Sprintf("%s: %s", harness.ShortID(rid), strings.Join(ds, "; ")))
+			}
+		}
+		step := func() {
+			vsched.Quiesce()
+			for f.Net.Node(sp.ID).Pending(q.ID) > 0 {
+				f.Net.Node(sp.ID).DeliverNext(q.ID)
+				vsched.Quiesce()
+			}
+			observe()
+		}
+		issue("A")
+		issue("B")
+		step()
+		for _, e := range cs.Evs {
+			switch e {
+			case "cancelA-ctx", "cancelB-ctx", "cancelC-ctx":
+				n := e[6:7]
+				if res[n] != nil {
+					cancelled[n] = true
+					res[n].Cancel()
+				}
+			case "cancelB-api", "cancelA-api":
+				n := e[6:7]
+				cancelled[n] = true
+				_ = q.GS.Cancel(context.Background(), ids[n])
+			case "answerA", "answerB", "answerC":
+				answer(e[6:7])
+			case "issueC":
+				if res["C"] == nil {
+					issue("C")
+				}
+			}
+			step()
+		}
+		// everything still alive is answered so that all requests end
+		for round := 0; round < 4; round++ {
+			for _, n := range []string{"A", "B", "C"} {
+				if res[n] != nil && !cancelled[n] {
+					answer(n)
+					step()
+				}
+			}
+		}
+		for _, n := range []string{"A", "B", "C"} {
+			if res[n] != nil && !cancelled[n] && (!res[n].Closed() || len(res[n].Errs) > 0 || len(res[n].Visits) == 0) {
+				notDone = append(notDone, fmt.Sprintf("%s(closed=%v errs=%v nodes=%d)", n, res[n].Closed(), res[n].ErrStrings(dags[n]), len(res[n].Visits)))
+			}
+		}
+		ps := gsq.PeerState(sp.ID).OutgoingState
+		for rid, st := range ps.RequestStates {
+			left[harness.ShortID(rid)] = st.String()
+		}
+		st := q.GS.Stats()
+		stats = fmt.Sprintf("active=%d pending=%d", st.OutgoingRequests.Active, st.OutgoingRequests.Pending)
+		f.Cancel()
+	})
+	if s.Panic != nil {
+		panicked = fmt.Sprint(s.Panic)
+	}
+	return
+}
+
+func c23MultiJudge(cs c23Multi) *core.Violation {
+	diag, stats, left, notDone, panicked := c23MultiRun(cs)
+	v := func(sig, what string) *core.Violation {
+		return &core.Violation{Signature: sig + "/requestor", What: fmt.Sprintf("one outgoing worker, requests A and B issued, then %v: %s", cs.Evs, what), Replay: cs}
+	}
+	switch {
+	case panicked != "":
+		return v("panic", panicked)
+	case len(diag) > 0:
+		sig := "state-disagrees-with-queue-at-quiescence"
+		only := true
+		for _, d := range diag {
+			only = only && strings.Contains(d, "in pending task queue but appears to have no tracked state")
+		}
+		if only {
+			// a queued request that is cancelled drops its state at once, its task stays pending until a worker pops it
+			sig = "cancelled-queued-request-leaves-pending-task"
+		}
+		return v(sig, fmt.Sprintf("diagnostics at a quiescent point: %v", diag[:min(len(diag), 3)]))
+	case len(notDone) > 0:
+		return v("queued-request-never-completes", fmt.Sprintf("requests that were answered and not cancelled did not complete: %v (stats %s)", notDone, stats))
+	case len(left) == 0 && stats != "active=0 pending=0":
+		return v("queue-not-empty-after-all-requests-ended", "no request is tracked any more but stats report "+stats)
+	case len(left) > 0:
+		return v("request-still-tracked-after-it-ended", fmt.Sprintf("%v", left))
+	}
+	return nil
+}
+
+func c23MultiCases() []c23Multi {
+	alpha := []string{"cancelB-ctx", "cancelB-api", "cancelA-ctx", "cancelA-api", "answerA", "answerB", "issueC", "answerC", "cancelC-ctx"}
+	var out []c23Multi
+	var rec func(cur []string)
+	rec = func(cur []string) {
+		if len(cur) > 0 {
+			out = append(out, c23Multi{Multi: true, Evs: append([]string{}, cur...)})
+		}
+		if len(cur) == 3 {
+			return
+		}
+		for _, a := range alpha {
+			dup := false
+			for _, x := range cur {
+				dup = dup || x == a
+			}
+			if !dup {
+				rec(append(cur, a))
+			}
+		}
+	}
+	rec(nil)
+	return out
+}
+
 func runC23(c *core.Ctx) {
+	for i, cs := range c23MultiCases() {
+		if !c.Mine(int64(i)) {
+			continue
+		}
+		c.Res.Evaluations++
+		c.Res.Traces++
+		c.Res.States += int64(len(cs.Evs) + 2)
+		c.Res.Transitions += int64(len(cs.Evs) + 2)
+		c.Class("requestor-multi")
+		if v := c23MultiJudge(cs); v != nil {
+			c.Violate(v.Signature, v.What, v.Replay)
+		}
+	}
 	rc := c05Cases(c.Thorough())
 	// several requests with a small worker pool: queued requests are pending, running ones active
 	for _, w := range []int{1, 2} {
@@ -166,7 +358,7 @@ func runC23(c *core.Ctx) {
 
 func init() {
 	core.Register(&core.Prop{ID: "C23", Level: "model_checking",
-		Rule:        "the responder-world catalogue of C05 (hook outcome x actions x positions x failing/stalled sends) plus three requests on 1-2 workers with a per-peer limit, and the requestor-world catalogue of C04: after every event the instance runs to quiescence and PeerState(p).Diagnostics() of the direction under test must be empty; when no request is tracked any more Stats() must show nothing active, pending or allocated. Schedule level: 6 responder and 6 requestor cases, every schedule within the deviation bound, observed at final quiescence; a class is (world, max active tasks seen, requests still tracked)",
+		Rule:        "the responder-world catalogue of C05 (hook outcome x actions x positions x failing/stalled sends) plus three requests on 1-2 workers with a per-peer limit, and the requestor-world catalogue of C04, plus a requestor with ONE outgoing worker holding requests A (running) and B (queued) under every sequence of <= 3 events from {cancel A/B/C by context or API, answer A/B/C, issue C}: after every event the instance runs to quiescence and PeerState(p).Diagnostics() of the direction under test must be empty; when no request is tracked any more Stats() must show nothing active, pending or allocated. Schedule level: 6 responder and 6 requestor cases, every schedule within the deviation bound, observed at final quiescence; a class is (world, max active tasks seen, requests still tracked)",
 		Assumptions: []string{"quiescent = no enabled thread, timers fired up to the ticker horizon", "the statement's reading of agreement is the one Diagnostics() implements: queued=pending, running=active, paused/completing in neither"},
 		Run:         runC23, QuickBudget: 300, ThoroughBudget: 2400,
 		Replay: func(raw json.RawMessage) string {
@@ -178,6 +370,13 @@ func init() {
 				World  string          `json:"world"`
 				Case   json.RawMessage `json:"case"`
 				Prefix []int           `json:"prefix"`
+			}
+			var mc c23Multi
+			if json.Unmarshal(raw, &mc) == nil && mc.Multi {
+				if v := c23MultiJudge(mc); v != nil {
+					return v.Signature + ": " + v.What
+				}
+				return "ok"
 			}
 			if err := json.Unmarshal(raw, &w); err != nil {
 				return err.Error()
